@@ -37,6 +37,10 @@ type Config struct {
 	Targets []Target `json:"targets,omitempty"`
 	Sources []Source `json:"sources,omitempty"`
 	Url     string   `json:"url"`
+	// Fine: the run uses a millisecond time scale (timeouts, leases, ticks and
+	// background period of a few ms) so that deadlines fall between the steps
+	// of requests in flight; otherwise seconds to hours.
+	Fine bool `json:"fine,omitempty"`
 	Epoch   int64    `json:"epoch"`
 }
 
